@@ -1156,9 +1156,13 @@ def _build_joinedstr(
     parent: Module | Class,
     *,
     in_joined_str: bool = False,  # noqa: ARG001
+    in_formatted_str: bool = False,  # noqa: ARG001
     **kwargs: Any,
 ) -> Expr:
-    return ExprJoinedStr([_build(value, parent, in_joined_str=True, **kwargs) for value in node.values])
+    # The literal parts of an f-string nested in a formatted value are literal parts again (no quotes).
+    return ExprJoinedStr(
+        [_build(value, parent, in_joined_str=True, in_formatted_str=False, **kwargs) for value in node.values],
+    )
 
 
 def _build_keyword(node: ast.keyword, parent: Module | Class, function: Expr | None = None, **kwargs: Any) -> Expr:
